@@ -29,7 +29,15 @@ func Parse(text []byte) (out ParseOut) {
 			out.Panic = p
 		}
 	}()
+	var before []byte
+	if len(text) <= 4096 {
+		before = append(before, text...)
+	}
 	out.Src, out.Err = formula.ParseSourceCode(text)
+	if before != nil && string(before) != string(text) {
+		// the text is the caller's: parsing reads it
+		out.Panic = fmt.Sprintf("ParseSourceCode modified the text it was given: %q became %q", before, text)
+	}
 	return
 }
 
